@@ -1,16 +1,941 @@
-//! Parts of properties that run on the solo rig (placeholder until the rig is wired in).
-use crate::runner::{Ctx, Outcome, Part};
-use crate::tape::Case;
+//! Properties decided on the solo rig: oracles over the recorded history of one real node.
+use crate::refvalid;
+use crate::rig::{self, HEv};
+use crate::runner::{Ctx, Outcome, Part, PropDef};
+use crate::solo::{self, cert_available, is_placeholder, render_hist, run_solo, sample_of, shown_to, Knobs, Profile, SoloRun};
+use crate::tape::{fnv, Case};
+use consensus::{Block, ConsensusMessage, QC};
+use crypto::{Digest, Hash as _};
+use serde_json::{json, Value};
+use std::collections::{BTreeMap, BTreeSet, HashMap, HashSet};
 
-fn noop(_: &Case, _: &Ctx) -> Outcome {
-    Outcome::default()
+const TAPE: usize = 260;
+
+fn part(name: &'static str, quick: u64, thorough: u64, run: crate::runner::RunFn) -> Part {
+    Part { name, cfg_len: solo::CFG_LEN, tape_max: TAPE, quick, thorough, max_shrink_iters: 250, run }
 }
 
-fn stub(name: &'static str) -> Part {
-    Part { name, cfg_len: 0, tape_max: 1, quick: 0, thorough: 0, max_shrink_iters: 0, run: noop }
+fn knobs() -> Knobs {
+    Knobs { inject: false }
 }
 
-pub fn c04_part() -> Part { stub("non-interference") }
-pub fn c09_part() -> Part { stub("solo") }
-pub fn c19_part() -> Part { stub("solo") }
-pub fn c20_part() -> Part { stub("solo-store") }
+fn fingerprint(run: &SoloRun) -> u64 {
+    // what the node did: sequence of (kind, round) of its outputs and commits
+    let mut s = String::new();
+    for e in &run.hist {
+        match &e.ev {
+            HEv::Out { msg, .. } => match &**msg {
+                ConsensusMessage::Propose(b) => s.push_str(&format!("P{},", b.round)),
+                ConsensusMessage::Vote(v) => s.push_str(&format!("V{},", v.round)),
+                ConsensusMessage::Timeout(t) => s.push_str(&format!("T{}/{},", t.round, t.high_qc.round)),
+                ConsensusMessage::TC(t) => s.push_str(&format!("C{},", t.round)),
+                ConsensusMessage::SyncRequest(..) => s.push_str("S,"),
+            },
+            HEv::Commit(b) => s.push_str(&format!("K{},", b.round)),
+            _ => {}
+        }
+    }
+    s.push_str(&format!("{:?}{}", run.w.stakes, run.sut));
+    fnv(s.as_bytes())
+}
+
+fn hist_json(run: &SoloRun) -> Value {
+    json!({"n": run.w.n, "stakes": run.w.stakes, "sut": run.sut, "script": run.steps, "history": render_hist(run, 400)})
+}
+
+fn commits(run: &SoloRun) -> Vec<(u64, u64, std::rc::Rc<Block>)> {
+    run.hist
+        .iter()
+        .filter_map(|e| match &e.ev {
+            HEv::Commit(b) => Some((e.seq, e.t_us, b.clone())),
+            _ => None,
+        })
+        .collect()
+}
+
+/// Votes signed by the SUT that reached the wire: (seq, t_us, round, digest).
+fn wire_votes(run: &SoloRun) -> Vec<(u64, u64, u64, Digest)> {
+    let me = run.w.pk(run.sut);
+    let mut out = Vec::new();
+    for e in &run.hist {
+        if let HEv::Out { msg, .. } = &e.ev {
+            if let ConsensusMessage::Vote(v) = &**msg {
+                if v.author == me {
+                    out.push((e.seq, e.t_us, v.round, v.hash.clone()));
+                }
+            }
+        }
+    }
+    out
+}
+
+/// The SUT's own signature inside QCs it put into its proposals: (seq of the proposal, round, digest).
+fn embedded_votes(run: &SoloRun) -> Vec<(u64, u64, Digest)> {
+    let me = run.w.pk(run.sut);
+    let mut out = Vec::new();
+    let mut seen = HashSet::new();
+    for e in &run.hist {
+        if let HEv::Out { msg, .. } = &e.ev {
+            if let ConsensusMessage::Propose(b) = &**msg {
+                if b.author == me {
+                    let d = refvalid::vote_digest(&b.qc.hash, b.qc.round);
+                    for (k, sig) in &b.qc.votes {
+                        if *k == me && refvalid::sig_ok(sig, &d, &me) && seen.insert((b.qc.round, b.qc.hash.clone())) {
+                            out.push((e.seq, b.qc.round, b.qc.hash.clone()));
+                        }
+                    }
+                }
+            }
+        }
+    }
+    out
+}
+
+fn own_timeouts(run: &SoloRun) -> Vec<(u64, u64, u64, QC)> {
+    let me = run.w.pk(run.sut);
+    let mut out: Vec<(u64, u64, u64, QC)> = Vec::new();
+    for e in &run.hist {
+        if let HEv::Out { msg, .. } = &e.ev {
+            if let ConsensusMessage::Timeout(t) = &**msg {
+                if t.author == me {
+                    // one broadcast = several frames; keep the first frame of each distinct (instant, round)
+                    if !out.iter().any(|(_, tu, r, _)| *tu == e.t_us && *r == t.round) {
+                        out.push((e.seq, e.t_us, t.round, t.high_qc.clone()));
+                    }
+                }
+            }
+        }
+    }
+    out
+}
+
+fn first_delivery_of_block(run: &SoloRun) -> HashMap<Digest, u64> {
+    let mut m = HashMap::new();
+    for e in &run.hist {
+        match &e.ev {
+            HEv::In { msg, .. } => {
+                if let ConsensusMessage::Propose(b) = &**msg {
+                    m.entry(b.digest()).or_insert(e.seq);
+                }
+            }
+            HEv::Out { msg, .. } => {
+                if let ConsensusMessage::Propose(b) = &**msg {
+                    m.entry(b.digest()).or_insert(e.seq);
+                }
+            }
+            _ => {}
+        }
+    }
+    m
+}
+
+/// Every block with digest `d` the node could have seen before `before` (the embedded TC and the
+/// QC's vote list are not covered by the digest, so one digest may have several variants).
+fn variants_before(run: &SoloRun, d: &Digest, before: u64) -> Vec<Block> {
+    let mut out = Vec::new();
+    for e in &run.hist {
+        if e.seq >= before {
+            break;
+        }
+        let b = match &e.ev {
+            HEv::In { msg, .. } | HEv::Out { msg, .. } => match &**msg {
+                ConsensusMessage::Propose(b) => b,
+                _ => continue,
+            },
+            _ => continue,
+        };
+        if b.digest() == *d {
+            out.push(b.clone());
+        }
+    }
+    out
+}
+
+fn no_panic(run: &SoloRun, out: &mut Outcome) -> bool {
+    // A panic of the node makes every other observation unreliable; it is C15's business. The
+    // other properties skip such a case (counted) instead of reporting the same root cause again.
+    if run.panics.iter().any(|p| p.node == run.sut_id) {
+        out.class("skipped:node-panicked");
+        return false;
+    }
+    true
+}
+
+// ------------------------------------------------------------------------------------------ C02
+
+pub fn c02_def() -> PropDef {
+    PropDef {
+        id: "C02",
+        level: "exploration",
+        rule: "proptest (cfg: committee 4..7, stake profile, keys, which authority is the real node, scheduler seed; tape: script) -> solo rig, 'chains' and 'mixed' profiles: puppets holding >= quorum craft certified chains with round gaps (TC-justified or not), forks on older parents, orphaned certified blocks, children-first delivery answered through the sync path promptly / late / never, interleaved with timeouts and rounds led by the real node. Oracle on the node's commit channel D1,D2,...: D1's parent is the genesis placeholder, D(i+1).parent = digest(D(i)), no D(i) is the placeholder (round 0 / default author), no digest twice. Non-trivial: a commit whose ancestor walk ran (a committed block whose round is more than one above the previously committed round) or >= 3 commits after a fork/gap step; distinct by the node's output/commit sequence hash.",
+        assumptions: &["consensus nodes are not restarted (the code does not persist voting state; no listed property quantifies over restarts)"],
+        parts: vec![
+            part("chains", 5_000, 150_000, |c, x| c02_run(c, x, Profile::Chains)),
+            part("mixed", 2_000, 60_000, |c, x| c02_run(c, x, Profile::Mixed)),
+        ],
+    }
+}
+
+fn c02_run(case: &Case, _ctx: &Ctx, profile: Profile) -> Outcome {
+    let run = run_solo(case, profile, &knobs());
+    let mut out = Outcome::default();
+    out.sample = sample_of(&run);
+    out.fingerprint = fingerprint(&run);
+    if !no_panic(&run, &mut out) {
+        return out;
+    }
+    let cs = commits(&run);
+    let mut prev: Option<Digest> = None;
+    let mut prev_round = 0u64;
+    let mut seen = HashSet::new();
+    let mut walked = false;
+    for (i, (_, _, b)) in cs.iter().enumerate() {
+        let d = b.digest();
+        if is_placeholder(b) {
+            out.violate("genesis-placeholder-delivered", format!("delivery #{} is the genesis placeholder (round {}, default author)", i + 1, b.round), hist_json(&run));
+            continue;
+        }
+        if !seen.insert(d.clone()) {
+            out.violate("block-delivered-twice", format!("delivery #{}: block of round {} was already delivered", i + 1, b.round), hist_json(&run));
+            continue;
+        }
+        match &prev {
+            None => {
+                if !refvalid::is_genesis_qc(&b.qc) {
+                    out.violate("first-delivery-not-child-of-genesis", format!("first delivered block (round {}) does not extend genesis", b.round), hist_json(&run));
+                }
+            }
+            Some(p) => {
+                if b.qc.hash != *p {
+                    let sig = if b.round <= prev_round { "delivery-out-of-order" } else { "delivery-skips-ancestor" };
+                    out.violate(sig, format!("delivery #{} (round {}) is not a child of the previous delivery (round {})", i + 1, b.round, prev_round), hist_json(&run));
+                }
+            }
+        }
+        if b.round > prev_round + 1 && prev.is_some() {
+            walked = true;
+        }
+        prev = Some(d);
+        prev_round = b.round;
+    }
+    // gap between consecutive committed rounds within one instant means the ancestor walk ran
+    let gapped = cs.windows(2).any(|w| w[0].1 == w[1].1);
+    if gapped {
+        out.class("ancestors-committed-in-one-instant");
+    }
+    if walked {
+        out.class("round-gap-between-deliveries");
+    }
+    out.class(&format!("commits={}", match cs.len() { 0 => "0", 1..=2 => "1-2", 3..=9 => "3-9", _ => "10+" }));
+    let forky = run.stats.keys().any(|k| k.starts_with("fork-gap") || k == "children-first");
+    out.nontrivial = gapped || walked || (cs.len() >= 3 && forky);
+    out
+}
+
+// ------------------------------------------------------------------------------------------ C03
+
+pub fn c03_def() -> PropDef {
+    PropDef {
+        id: "C03",
+        level: "exploration",
+        rule: "proptest cfg+tape -> solo rig, 'voting' and 'mixed' profiles: valid proposals for the node's round, second proposals for the same round, proposals after the node timed out (virtual time advanced past the timeout), gapped proposals with safe / unsafe / absent TCs, forks on older parents, wrong-leader proposals, stale and future votes/timeouts/TCs, blocks arriving through the sync and payload loop-back paths. Oracle over messages signed by the node (Vote frames it sends + its own signature inside QCs of its proposals): (i) at most one voted digest per round; (ii) wire vote rounds strictly increase over strictly increasing instants; (iii) no vote for round r emitted after its Timeout for a round >= r, and no vote at all for a block first delivered after such a timeout; (iv) every voted block is known and has qc.round+1 = round, or a TC with tc.round+1 = round and qc.round >= max(tc high-QC rounds); and qc.round < round. Non-trivial: the node cast >= 2 votes and the history contains a refusal opportunity (equivocation, proposal after its timeout, unsafe gap / TC); distinct by output-sequence hash.",
+        assumptions: &["zero connect latency, so a frame is written in the instant it is created"],
+        parts: vec![
+            part("voting", 6_000, 200_000, |c, x| c03_run(c, x, Profile::Voting)),
+            part("mixed", 2_000, 60_000, |c, x| c03_run(c, x, Profile::Mixed)),
+        ],
+    }
+}
+
+fn c03_run(case: &Case, _ctx: &Ctx, profile: Profile) -> Outcome {
+    let run = run_solo(case, profile, &knobs());
+    let mut out = Outcome::default();
+    out.sample = sample_of(&run);
+    out.fingerprint = fingerprint(&run);
+    if !no_panic(&run, &mut out) {
+        return out;
+    }
+    let votes = wire_votes(&run);
+    let emb = embedded_votes(&run);
+    let touts = own_timeouts(&run);
+    // (i) one digest per round
+    let mut per_round: BTreeMap<u64, BTreeSet<Vec<u8>>> = BTreeMap::new();
+    for (_, _, r, d) in &votes {
+        per_round.entry(*r).or_default().insert(d.0.to_vec());
+    }
+    for (_, r, d) in &emb {
+        per_round.entry(*r).or_default().insert(d.0.to_vec());
+    }
+    for (r, set) in &per_round {
+        if set.len() > 1 {
+            out.violate("two-votes-in-one-round", format!("the node signed votes for {} different blocks in round {}", set.len(), r), hist_json(&run));
+        }
+    }
+    // (ii) strictly increasing rounds across strictly increasing instants
+    let mut last: Option<(u64, u64)> = None; // (t_us, max round so far at earlier instants)
+    let mut max_before = 0u64;
+    let mut cur_t = 0u64;
+    let mut cur_max = 0u64;
+    for (_, t, r, _) in &votes {
+        if last.is_none() || *t != cur_t {
+            max_before = max_before.max(cur_max);
+            cur_t = *t;
+            cur_max = 0;
+            last = Some((*t, max_before));
+        }
+        if *r <= max_before && max_before != 0 {
+            out.violate("vote-round-not-increasing", format!("vote for round {} emitted after a vote for round {}", r, max_before), hist_json(&run));
+        }
+        cur_max = cur_max.max(*r);
+    }
+    // (iii) no vote after a timeout for the same or a higher round
+    let first_seen = first_delivery_of_block(&run);
+    for (ts, tt, tr, _) in &touts {
+        for (vs, vt, vr, _) in &votes {
+            if vt > tt && vs > ts && vr <= tr {
+                out.violate("vote-after-timeout", format!("vote for round {} emitted after the node's timeout for round {}", vr, tr), hist_json(&run));
+            }
+        }
+        for (r, d) in votes.iter().map(|(_, _, r, d)| (*r, d)).chain(emb.iter().map(|(_, r, d)| (*r, d))) {
+            if r <= *tr {
+                if let Some(s) = first_seen.get(d) {
+                    if s > ts {
+                        out.violate("vote-after-timeout", format!("the node voted in round {} for a block it first received after its timeout for round {}", r, tr), hist_json(&run));
+                    }
+                }
+            }
+        }
+    }
+    // (iv) safe extension
+    let all_votes: Vec<(u64, u64, Digest)> = votes.iter().map(|(s, _, r, d)| (*s, *r, d.clone())).chain(emb.iter().map(|(s, r, d)| (*s, *r, d.clone()))).collect();
+    for (seq, r, d) in all_votes {
+        let vars = variants_before(&run, &d, seq);
+        if vars.is_empty() {
+            out.violate("vote-for-unknown-block", format!("vote in round {} for a digest that no delivered or own proposal has", r), hist_json(&run));
+            continue;
+        }
+        let safe = |b: &Block| {
+            let by_qc = b.qc.round + 1 == b.round;
+            let by_tc = b.tc.as_ref().map_or(false, |tc| tc.round + 1 == b.round && tc.votes.iter().all(|(_, _, hr)| b.qc.round >= *hr));
+            by_qc || by_tc
+        };
+        let b = &vars[0];
+        if b.round != r {
+            out.violate("vote-round-differs-from-block", format!("vote says round {} but the block has round {}", r, b.round), hist_json(&run));
+        }
+        if !vars.iter().any(|b| safe(b)) {
+            out.violate("vote-for-unsafe-extension", format!("voted block of round {} has qc round {} and tc {:?}", b.round, b.qc.round, b.tc.as_ref().map(|t| (t.round, t.high_qc_rounds()))), hist_json(&run));
+        }
+        if b.qc.round >= b.round {
+            out.violate("vote-for-block-not-above-its-qc", format!("voted block of round {} carries a QC of round {}", b.round, b.qc.round), hist_json(&run));
+        }
+    }
+    let nvotes = votes.len() + emb.len();
+    let refusal = run.stats.contains_key("equivocate")
+        || run.stats.contains_key("fork-gap-tc-unsafe")
+        || run.stats.contains_key("fork-gap-tc-none")
+        || (!touts.is_empty() && nvotes > 0);
+    if run.stats.contains_key("equivocate") {
+        out.class("equivocation-offered");
+    }
+    if !touts.is_empty() {
+        out.class("node-timed-out");
+    }
+    if run.stats.contains_key("fork-gap-tc-unsafe") {
+        out.class("unsafe-tc-offered");
+    }
+    if !emb.is_empty() {
+        out.class("own-vote-seen-inside-own-qc");
+    }
+    out.class(&format!("votes={}", match nvotes { 0 => "0", 1 => "1", 2..=5 => "2-5", _ => "6+" }));
+    out.nontrivial = nvotes >= 2 && refusal;
+    out
+}
+
+// ------------------------------------------------------------------------------------------ C05
+
+pub fn c05_def() -> PropDef {
+    PropDef {
+        id: "C05",
+        level: "exploration",
+        rule: "proptest cfg+tape -> solo rig, 'chains' and 'mixed' profiles (chain shapes of C02 plus near-misses: certified child with a round gap, consecutive child never certified, TC only, votes below quorum, QC shown only inside a timeout's high-QC). Oracle: for each block C on the commit channel at log position p, Shown = reference-valid QCs inside frames delivered to the node before p, plus QCs derivable from quorum-many valid votes delivered to it (counting its own stake); C is justified iff some shown QC certifies a known block B1 with B1.parent = C and B1.round = C.round+1, or C is an ancestor of a justified block delivered at or before the same instant. Every commit must be justified (genesis placeholder deliveries are C02's business and ignored). Non-trivial: >= 1 commit and >= 1 near-miss stimulus (gap / fork / TC / sub-quorum votes) in the history.",
+        assumptions: &["the node's own vote is counted toward QCs it could have assembled (generous, hence sound)"],
+        parts: vec![
+            part("chains", 5_000, 150_000, |c, x| c05_run(c, x, Profile::Chains)),
+            part("mixed", 2_000, 60_000, |c, x| c05_run(c, x, Profile::Mixed)),
+        ],
+    }
+}
+
+fn ancestors_of<'a>(blocks: &'a HashMap<Digest, Block>, b: &Block) -> Vec<Digest> {
+    let mut out = Vec::new();
+    let mut cur = b.qc.hash.clone();
+    let mut guard = 0;
+    while let Some(p) = blocks.get(&cur) {
+        out.push(cur.clone());
+        cur = p.qc.hash.clone();
+        guard += 1;
+        if guard > 10_000 {
+            break;
+        }
+    }
+    out
+}
+
+fn c05_run(case: &Case, _ctx: &Ctx, profile: Profile) -> Outcome {
+    let run = run_solo(case, profile, &knobs());
+    let mut out = Outcome::default();
+    out.sample = sample_of(&run);
+    out.fingerprint = fingerprint(&run);
+    if !no_panic(&run, &mut out) {
+        return out;
+    }
+    let shown = shown_to(&run);
+    let cs = commits(&run);
+    let w = &run.w;
+    // QCs derivable from delivered votes: (position at which quorum was reached, hash, round)
+    let mut derived: Vec<(u64, Digest, u64)> = Vec::new();
+    {
+        let own = w.stakes[run.sut] as u64;
+        let mut acc: HashMap<(Digest, u64), BTreeSet<usize>> = HashMap::new();
+        for (s, v) in &shown.votes {
+            if let Some(i) = w.index_of(&v.author) {
+                if i == run.sut {
+                    continue;
+                }
+                let set = acc.entry((v.hash.clone(), v.round)).or_default();
+                set.insert(i);
+                let members: Vec<usize> = set.iter().copied().collect();
+                if w.stake_of(&members) + own >= w.quorum() {
+                    derived.push((*s, v.hash.clone(), v.round));
+                }
+            }
+        }
+    }
+    let direct = |c: &Block, before: u64| -> bool {
+        let cd = c.digest();
+        let certifies = |hash: &Digest, round: u64| -> bool {
+            match run.blocks.get(hash) {
+                Some(b1) => b1.round == round && b1.qc.hash == cd && b1.round == c.round + 1,
+                None => false,
+            }
+        };
+        shown.qcs.iter().any(|(s, q)| *s < before && certifies(&q.hash, q.round)) || derived.iter().any(|(s, h, r)| *s < before && certifies(h, *r))
+    };
+    let mut justified: Vec<bool> = Vec::new();
+    for (seq, _, c) in &cs {
+        justified.push(!is_placeholder(c) && direct(c, *seq));
+    }
+    for (i, (_, t, c)) in cs.iter().enumerate() {
+        if is_placeholder(c) || justified[i] {
+            continue;
+        }
+        let cd = c.digest();
+        let covered = cs.iter().enumerate().any(|(j, (_, t2, c2))| {
+            justified[j] && (j <= i || t2 == t) && ancestors_of(&run.blocks, c2).contains(&cd)
+        });
+        if !covered {
+            out.violate(
+                "commit-without-consecutive-certified-child",
+                format!("block of round {} was committed but no QC shown to the node certifies a child of round {}, and it is no ancestor of a justified commit", c.round, c.round + 1),
+                hist_json(&run),
+            );
+        }
+    }
+    let near_miss = run.stats.keys().any(|k| k.starts_with("fork-gap") || k == "timeouts-to-sut" || k == "tc-to-sut" || k == "children-first");
+    out.class(&format!("commits={}", match cs.len() { 0 => "0", 1..=2 => "1-2", _ => "3+" }));
+    if near_miss {
+        out.class("near-miss-offered");
+    }
+    out.nontrivial = !cs.is_empty() && near_miss;
+    out
+}
+
+// ------------------------------------------------------------------------------------------ C08
+
+pub fn c08_def() -> PropDef {
+    PropDef {
+        id: "C08",
+        level: "exploration",
+        rule: "proptest cfg+tape -> solo rig, 'payloads' profile: proposals whose payload has 0..3 batch digests; per digest the tape decides whether the batch reaches the node's mempool port before the proposal, shortly after, only in reply to its BatchRequest (or not even then), or never; direct, sync-resumed and payload-resumed processing paths. Oracle (store-write observer H4): for each Vote frame of the node for a block of another author and for each block on its commit channel, at log position p, every payload digest has a store write under that digest by the node before p. Non-trivial: a vote or commit for a block with >= 1 digest whose batch was not yet stored when the proposal was delivered; distinct by output-sequence hash.",
+        assumptions: &["the commit is logged when the harness drains the commit channel, i.e. not earlier than the real hand-over (conservative for this oracle)"],
+        parts: vec![
+            part("payloads", 5_000, 120_000, |c, x| c08_run(c, x, Profile::Payloads)),
+            part("mixed", 1_500, 40_000, |c, x| c08_run(c, x, Profile::Mixed)),
+        ],
+    }
+}
+
+fn c08_run(case: &Case, _ctx: &Ctx, profile: Profile) -> Outcome {
+    let run = run_solo(case, profile, &knobs());
+    let mut out = Outcome::default();
+    out.sample = sample_of(&run);
+    out.fingerprint = fingerprint(&run);
+    if !no_panic(&run, &mut out) {
+        return out;
+    }
+    let me = run.w.pk(run.sut);
+    let mut written: HashMap<Vec<u8>, u64> = HashMap::new();
+    for e in &run.hist {
+        if let HEv::StoreWrite(k) = &e.ev {
+            written.entry(k.clone()).or_insert(e.seq);
+        }
+    }
+    let first_seen = first_delivery_of_block(&run);
+    let mut waited = false;
+    let mut check = |b: &Block, p: u64, what: &str, out: &mut Outcome| {
+        for d in &b.payload {
+            match written.get(&d.0.to_vec()) {
+                Some(s) if *s < p => {
+                    if let Some(fs) = first_seen.get(&b.digest()) {
+                        if s > fs {
+                            waited = true;
+                        }
+                    }
+                }
+                _ => out.violate(
+                    &format!("{}-without-batch-in-store", what),
+                    format!("{} for block of round {} although payload digest {} was not written to the node's store before", what, b.round, rig::short(d)),
+                    hist_json(&run),
+                ),
+            }
+        }
+    };
+    let mut with_payload = 0;
+    for e in &run.hist {
+        match &e.ev {
+            HEv::Out { msg, .. } => {
+                if let ConsensusMessage::Vote(v) = &**msg {
+                    if v.author == me {
+                        if let Some(b) = run.blocks.get(&v.hash) {
+                            if b.author != me {
+                                if !b.payload.is_empty() {
+                                    with_payload += 1;
+                                }
+                                check(b, e.seq, "vote", &mut out);
+                            }
+                        }
+                    }
+                }
+            }
+            HEv::Commit(b) => {
+                if !b.payload.is_empty() {
+                    with_payload += 1;
+                }
+                check(b, e.seq, "commit", &mut out);
+            }
+            _ => {}
+        }
+    }
+    if with_payload > 0 {
+        out.class("vote-or-commit-with-payload");
+    }
+    if waited {
+        out.class("batch-arrived-after-proposal");
+    }
+    for k in ["batch-mode-1", "batch-mode-2", "batch-mode-3", "batch-served"] {
+        if run.stats.contains_key(k) {
+            out.class(k);
+        }
+    }
+    out.nontrivial = waited;
+    out
+}
+
+// ------------------------------------------------------------------------------------------ C09 (solo part)
+
+pub fn c09_part() -> Part {
+    part("solo", 4_000, 100_000, c09_run)
+}
+
+fn c09_run(case: &Case, _ctx: &Ctx) -> Outcome {
+    let run = run_solo(case, Profile::Voting, &knobs());
+    let mut out = Outcome::default();
+    out.sample = sample_of(&run);
+    out.fingerprint = fingerprint(&run);
+    if !no_panic(&run, &mut out) {
+        return out;
+    }
+    let w = &run.w;
+    let me = w.pk(run.sut);
+    let votes = wire_votes(&run);
+    let emb = embedded_votes(&run);
+    for (r, d) in votes.iter().map(|(_, _, r, d)| (*r, d.clone())).chain(emb.iter().map(|(_, r, d)| (*r, d.clone()))) {
+        if let Some(b) = run.blocks.get(&d) {
+            let leader = w.pk(w.leader(b.round));
+            if b.author != leader {
+                out.violate("vote-for-non-leader-block", format!("the node voted in round {} for a block whose author is not the leader of round {}", r, b.round), hist_json(&run));
+            }
+            if !refvalid::sig_ok(&b.signature, &refvalid::block_digest(b), &b.author) {
+                out.violate("vote-for-block-with-bad-author-signature", format!("voted block of round {} is not signed by its author", b.round), hist_json(&run));
+            }
+        }
+    }
+    // the node never signs two different proposals for one round
+    let mut own: BTreeMap<u64, BTreeSet<Vec<u8>>> = BTreeMap::new();
+    for e in &run.hist {
+        if let HEv::Out { msg, .. } = &e.ev {
+            if let ConsensusMessage::Propose(b) = &**msg {
+                if b.author == me && refvalid::sig_ok(&b.signature, &refvalid::block_digest(b), &me) {
+                    own.entry(b.round).or_default().insert(b.digest().0.to_vec());
+                }
+            }
+        }
+    }
+    for (r, set) in &own {
+        if set.len() > 1 {
+            out.violate("node-equivocates", format!("the node signed {} different proposals for round {}", set.len(), r), hist_json(&run));
+        }
+        if w.leader(*r) != run.sut {
+            out.violate("node-proposes-without-being-leader", format!("the node proposed in round {} which it does not lead", r), hist_json(&run));
+        }
+    }
+    let wrong = run.stats.contains_key("wrong-leader");
+    if wrong {
+        out.class("wrong-leader-proposal-offered");
+    }
+    if !own.is_empty() {
+        out.class("node-proposed");
+    }
+    let raced = !own.is_empty() && (run.stats.contains_key("timeouts-to-sut") || run.stats.contains_key("tc-to-sut"));
+    if raced {
+        out.class("node-proposed-with-timeouts-around");
+    }
+    out.nontrivial = wrong || raced;
+    out
+}
+
+// ------------------------------------------------------------------------------------------ C10
+
+pub fn c10_def() -> PropDef {
+    PropDef {
+        id: "C10",
+        level: "exploration",
+        rule: "proptest cfg+tape -> solo rig, 'voting', 'certs' and 'mixed' profiles (proposals, votes, timeouts, TCs in any order, past and future rounds, timer expiries). Oracle on the node's own messages: (i) the round fields of its Vote/Timeout/TC frames never decrease across strictly increasing instants (proposals, emitted by a separate task that may lag, are checked as their own stream); (ii) every Vote/Timeout/Propose it emits for a round R>1 is preceded in the log by a certificate for exactly R-1 available to it: a reference-valid QC or TC inside a delivered frame, or quorum-many valid votes for one block / timeouts of R-1 delivered to it (counting its own stake); (iii) each Timeout it signs carries a reference-valid (or genesis) high QC whose round is >= the QC round of every block it voted for earlier, of every earlier own timeout, and of every earlier own proposal. Non-trivial: the node acted in >= 3 rounds, entered through >= 2 kinds of evidence (QC and TC), and sent >= 1 timeout; distinct by output-sequence hash.",
+        assumptions: &["zero connect latency; same-instant emissions are compared as sets"],
+        parts: vec![
+            part("voting", 4_000, 120_000, |c, x| c10_run(c, x, Profile::Voting)),
+            part("certs", 2_500, 80_000, |c, x| c10_run(c, x, Profile::Certs)),
+            part("mixed", 1_500, 40_000, |c, x| c10_run(c, x, Profile::Mixed)),
+        ],
+    }
+}
+
+fn c10_run(case: &Case, _ctx: &Ctx, profile: Profile) -> Outcome {
+    let run = run_solo(case, profile, &knobs());
+    let mut out = Outcome::default();
+    out.sample = sample_of(&run);
+    out.fingerprint = fingerprint(&run);
+    if !no_panic(&run, &mut out) {
+        return out;
+    }
+    let w = &run.w;
+    let me = w.pk(run.sut);
+    let shown = shown_to(&run);
+    // (i) monotone rounds of core-originated messages
+    let mut max_before = 0u64;
+    let mut cur_t = u64::MAX;
+    let mut cur_max = 0u64;
+    let mut prop_max = 0u64;
+    let mut rounds_acted: BTreeSet<u64> = BTreeSet::new();
+    let mut via_qc = false;
+    let mut via_tc = false;
+    let mut checked: HashSet<(u8, u64)> = HashSet::new();
+    let mut max_voted_qc = 0u64;
+    let mut max_own_prop_qc = 0u64;
+    let mut max_timeout_qc = 0u64;
+    let mut ntimeouts = 0;
+    let mut seen_props: HashSet<Digest> = HashSet::new();
+    for e in &run.hist {
+        if let HEv::Out { msg, .. } = &e.ev {
+            if let ConsensusMessage::Propose(b) = &**msg {
+                // re-sent proposals (other recipients of one broadcast, helper replies to sync
+                // requests) are not new acts of the node
+                if !seen_props.insert(b.digest()) {
+                    continue;
+                }
+            }
+        }
+        let (kind, round) = match &e.ev {
+            HEv::Out { msg, .. } => match &**msg {
+                ConsensusMessage::Vote(v) if v.author == me => (0u8, v.round),
+                ConsensusMessage::Timeout(t) if t.author == me => (1u8, t.round),
+                ConsensusMessage::TC(t) => (2u8, t.round),
+                ConsensusMessage::Propose(b) if b.author == me => (3u8, b.round),
+                _ => continue,
+            },
+            _ => continue,
+        };
+        if kind != 3 {
+            if e.t_us != cur_t {
+                max_before = max_before.max(cur_max);
+                cur_t = e.t_us;
+                cur_max = 0;
+            }
+            if round < max_before {
+                out.violate("round-decreased", format!("message of round {} emitted after a message of round {}", round, max_before), hist_json(&run));
+            }
+            cur_max = cur_max.max(round);
+        } else {
+            if round < prop_max {
+                out.violate("proposal-round-decreased", format!("proposal for round {} emitted after a proposal for round {}", round, prop_max), hist_json(&run));
+            }
+            prop_max = prop_max.max(round);
+        }
+        // (ii) evidence for entering the round
+        if kind != 2 && round > 1 && checked.insert((kind, round)) {
+            rounds_acted.insert(round);
+            if !cert_available(&run, &shown, round - 1, e.seq) {
+                out.violate(
+                    "round-entered-without-certificate",
+                    format!("the node acted in round {} ({}) but no QC/TC for round {} was available to it before", round, ["vote", "timeout", "tc", "proposal"][kind as usize], round - 1),
+                    hist_json(&run),
+                );
+            }
+            if shown.qcs.iter().any(|(s, q)| *s < e.seq && q.round == round - 1) {
+                via_qc = true;
+            }
+            if shown.tcs.iter().any(|(s, t)| *s < e.seq && t.round == round - 1) || shown.timeouts.iter().any(|(s, t)| *s < e.seq && t.round == round - 1) {
+                via_tc = true;
+            }
+        } else if round == 1 {
+            rounds_acted.insert(1);
+        }
+        // (iii) high-QC dominance
+        if let HEv::Out { msg, .. } = &e.ev {
+            match &**msg {
+                ConsensusMessage::Vote(v) if v.author == me => {
+                    if let Some(b) = run.blocks.get(&v.hash) {
+                        max_voted_qc = max_voted_qc.max(b.qc.round);
+                    }
+                }
+                ConsensusMessage::Propose(b) if b.author == me => {
+                    max_own_prop_qc = max_own_prop_qc.max(b.qc.round);
+                }
+                ConsensusMessage::Timeout(t) if t.author == me => {
+                    ntimeouts += 1;
+                    if refvalid::ref_qc_embedded(w, &t.high_qc).is_err() {
+                        out.violate("timeout-carries-invalid-qc", format!("timeout for round {} carries a high QC that is not valid", t.round), hist_json(&run));
+                    }
+                    let need = max_voted_qc.max(max_own_prop_qc).max(max_timeout_qc);
+                    if t.high_qc.round < need {
+                        out.violate(
+                            "timeout-high-qc-too-low",
+                            format!("timeout for round {} carries a QC of round {} although the node already voted for / proposed on / reported a QC of round {}", t.round, t.high_qc.round, need),
+                            hist_json(&run),
+                        );
+                    }
+                    max_timeout_qc = max_timeout_qc.max(t.high_qc.round);
+                }
+                _ => {}
+            }
+        }
+    }
+    if via_qc {
+        out.class("entered-via-qc");
+    }
+    if via_tc {
+        out.class("entered-via-tc-or-timeouts");
+    }
+    if ntimeouts > 0 {
+        out.class("node-sent-timeout");
+    }
+    if run.stats.contains_key("future-round-message") {
+        out.class("future-round-message");
+    }
+    if run.stats.contains_key("stale-round-message") {
+        out.class("stale-round-message");
+    }
+    out.class(&format!("rounds-acted={}", match rounds_acted.len() { 0 => "0", 1..=2 => "1-2", 3..=6 => "3-6", _ => "7+" }));
+    out.nontrivial = rounds_acted.len() >= 3 && via_qc && via_tc && ntimeouts >= 1;
+    out
+}
+
+// ------------------------------------------------------------------------------------------ C19 (solo part)
+
+pub fn c19_part() -> Part {
+    part("solo", 3_000, 80_000, c19_run)
+}
+
+fn c19_run(case: &Case, _ctx: &Ctx) -> Outcome {
+    let run = run_solo(case, Profile::Certs, &knobs());
+    let mut out = Outcome::default();
+    out.sample = sample_of(&run);
+    out.fingerprint = fingerprint(&run);
+    if !no_panic(&run, &mut out) {
+        return out;
+    }
+    let w = &run.w;
+    let me = w.pk(run.sut);
+    let shown = shown_to(&run);
+    let mut assembled_qcs = 0;
+    let mut tcs_by_round: BTreeMap<u64, BTreeSet<u64>> = BTreeMap::new();
+    let mut seen_props = HashSet::new();
+    for e in &run.hist {
+        if let HEv::Out { msg, .. } = &e.ev {
+            match &**msg {
+                ConsensusMessage::Propose(b) if b.author == me => {
+                    if !seen_props.insert(b.digest()) {
+                        continue;
+                    }
+                    if refvalid::is_genesis_qc(&b.qc) {
+                        continue;
+                    }
+                    if let Err(r) = refvalid::ref_qc(w, &b.qc) {
+                        out.violate("own-proposal-carries-invalid-qc", format!("QC (round {}) inside the node's proposal for round {} is not valid: {:?}", b.qc.round, b.round, r), hist_json(&run));
+                        continue;
+                    }
+                    // received as such, or assembled from delivered votes (+ own)?
+                    let signer_set: BTreeSet<Vec<u8>> = b.qc.votes.iter().map(|(k, _)| k.0.to_vec()).collect();
+                    let received = shown.qcs.iter().any(|(s, q)| *s < e.seq && q.hash == b.qc.hash && q.round == b.qc.round);
+                    if !received {
+                        assembled_qcs += 1;
+                        let mut voters: BTreeSet<Vec<u8>> = shown
+                            .votes
+                            .iter()
+                            .filter(|(s, v)| *s < e.seq && v.hash == b.qc.hash && v.round == b.qc.round)
+                            .map(|(_, v)| v.author.0.to_vec())
+                            .collect();
+                        voters.insert(me.0.to_vec());
+                        if !signer_set.is_subset(&voters) {
+                            out.violate("assembled-qc-has-signer-without-vote", format!("QC for round {} names a signer whose vote was never delivered to the node", b.qc.round), hist_json(&run));
+                        }
+                    }
+                }
+                ConsensusMessage::TC(tc) => {
+                    tcs_by_round.entry(tc.round).or_default().insert(e.t_us);
+                    if let Err(r) = refvalid::ref_tc(w, tc) {
+                        out.violate("broadcast-tc-invalid", format!("TC for round {} broadcast by the node is not valid: {:?}", tc.round, r), hist_json(&run));
+                    }
+                    let received = shown.tcs.iter().any(|(s, t)| *s < e.seq && t.round == tc.round);
+                    if !received {
+                        let mut authors: BTreeMap<Vec<u8>, BTreeSet<u64>> = BTreeMap::new();
+                        for (s, t) in &shown.timeouts {
+                            if *s < e.seq && t.round == tc.round {
+                                authors.entry(t.author.0.to_vec()).or_default().insert(t.high_qc.round);
+                            }
+                        }
+                        for (k, _, hr) in &tc.votes {
+                            if *k == me {
+                                continue;
+                            }
+                            match authors.get(&k.0.to_vec()) {
+                                Some(set) if set.contains(hr) => {}
+                                Some(_) => out.violate("tc-entry-high-qc-round-mismatch", format!("TC for round {} reports a high-QC round {} that its signer did not send", tc.round, hr), hist_json(&run)),
+                                None => out.violate("assembled-tc-has-signer-without-timeout", format!("TC for round {} names a signer whose timeout was never delivered to the node", tc.round), hist_json(&run)),
+                            }
+                        }
+                    }
+                }
+                _ => {}
+            }
+        }
+    }
+    for (r, instants) in &tcs_by_round {
+        if instants.len() > 1 {
+            out.violate("tc-broadcast-twice", format!("the node broadcast a TC for round {} at {} different instants", r, instants.len()), hist_json(&run));
+        }
+    }
+    if assembled_qcs > 0 {
+        out.class("node-assembled-qc");
+    }
+    if !tcs_by_round.is_empty() {
+        out.class("node-broadcast-tc");
+    }
+    let noisy = run.stats.contains_key("duplicate-vote") || run.stats.contains_key("conflicting-vote") || run.stats.contains_key("duplicate-timeout");
+    if noisy {
+        out.class("duplicates-or-conflicts-sent");
+    }
+    out.nontrivial = (assembled_qcs > 0 || !tcs_by_round.is_empty()) && (noisy || run.w.stakes.iter().any(|s| *s != run.w.stakes[0]));
+    out
+}
+
+// ------------------------------------------------------------------------------------------ C20 (solo part)
+
+pub fn c20_part() -> Part {
+    part("solo-store", 1_500, 40_000, c20_run)
+}
+
+fn c20_run(case: &Case, _ctx: &Ctx) -> Outcome {
+    // sync probes are frequent in this profile mix: reuse 'mixed' and look at the replies
+    let run = run_solo(case, Profile::Mixed, &knobs());
+    let mut out = Outcome::default();
+    out.sample = sample_of(&run);
+    out.fingerprint = fingerprint(&run);
+    if !no_panic(&run, &mut out) {
+        return out;
+    }
+    let w = &run.w;
+    // every SyncRequest delivered to the node for a block it has stored must be answered with that block
+    let mut stored: HashMap<Vec<u8>, u64> = HashMap::new();
+    for e in &run.hist {
+        if let HEv::StoreWrite(k) = &e.ev {
+            stored.entry(k.clone()).or_insert(e.seq);
+        }
+    }
+    let mut replies = 0;
+    let mut rich = false;
+    let end_t = run.hist.last().map(|e| e.t_us).unwrap_or(0);
+    for (i, e) in run.hist.iter().enumerate() {
+        if let HEv::In { msg, .. } = &e.ev {
+            if let ConsensusMessage::SyncRequest(d, origin) = &**msg {
+                let known = run.blocks.get(d);
+                let was_stored = stored.get(&d.0.to_vec()).map_or(false, |s| *s < e.seq);
+                let requester = match w.index_of(origin) {
+                    Some(i) => i as u32 + 1,
+                    None => continue,
+                };
+                // the reply: a Propose to the requester after the request
+                let reply = run.hist[i..].iter().find_map(|x| match &x.ev {
+                    HEv::Out { to, msg } if *to == requester => match &**msg {
+                        ConsensusMessage::Propose(b) if b.digest() == *d || known.map_or(false, |k| k.round == b.round && k.author == b.author) => Some(b.clone()),
+                        _ => None,
+                    },
+                    _ => None,
+                });
+                match (known, was_stored, reply) {
+                    (Some(orig), true, Some(back)) => {
+                        replies += 1;
+                        // the TC and the QC's vote list are not covered by the digest: the stored copy is
+                        // one of the variants delivered under this digest
+                        let vars = variants_before(&run, d, u64::MAX);
+                        let back_bytes = bincode::serialize(&back).unwrap();
+                        if !vars.iter().any(|v| bincode::serialize(v).unwrap() == back_bytes) {
+                            out.violate("sync-reply-differs-from-stored-block", format!("block of round {} came back different through the store", orig.round), hist_json(&run));
+                        }
+                        if back.digest() != *d {
+                            out.violate("sync-reply-digest-differs", format!("reply to a request for {} has digest {}", rig::short(d), rig::short(&back.digest())), hist_json(&run));
+                        }
+                        if refvalid::ref_block(w, orig).is_ok() && back.verify(&w.ccom).is_err() {
+                            out.violate("sync-reply-no-longer-verifies", format!("block of round {} no longer verifies after the store round trip", orig.round), hist_json(&run));
+                        }
+                        if !orig.payload.is_empty() || orig.tc.is_some() {
+                            rich = true;
+                        }
+                    }
+                    (Some(orig), true, None) => {
+                        // allow for requests sent right at the end of the case
+                        if e.t_us + 20_000 < end_t {
+                            out.violate("sync-request-for-stored-block-unanswered", format!("no reply to a SyncRequest for the stored block of round {}", orig.round), hist_json(&run));
+                        }
+                    }
+                    _ => {}
+                }
+            }
+        }
+    }
+    if replies > 0 {
+        out.class("sync-reply-seen");
+    }
+    if rich {
+        out.class("block-with-payload-or-tc-fetched-back");
+    }
+    out.nontrivial = replies > 0;
+    out
+}
+
+// ------------------------------------------------------------------------------------------ C04 (solo part; filled in by noninterference.rs)
+
+pub fn c04_part() -> Part {
+    crate::props::noninterference::part()
+}
